@@ -26,18 +26,20 @@ pub fn batteries(model: &Model, uni: bool) -> Vec<Query> {
 
 /// Err((kind, message, failing query))
 pub fn check_spec(spec: &FileSpec, only: Option<&Query>) -> Result<(u64, usize), (String, String, Option<Query>)> {
-    let (entries, v2) = build_file(spec).map_err(|e| ("write".to_string(), e, None))?;
-    let v1 = retrail_as_v1(&v2).map_err(|e| ("harness".to_string(), e, None))?;
+    let (entries, v2) = build_file(spec).map_err(|e| ("prerequisite".to_string(), e, None))?;
+    // what the V1 trailer stores is what the harness's encoder copied from the V2 trailer
+    let stored = vlib::fmt::parse_trailer(&v2).ok_or_else(|| ("prerequisite".to_string(), "V2 twin has no valid trailer".to_string(), None))?;
+    let v1 = retrail_as_v1(&v2).map_err(|e| ("prerequisite".to_string(), e, None))?;
     // the V1 trailer must be what the statement says: 21 bytes, fields distinct and non-zero where possible
     let r1 = open(&v1).map_err(|e| ("open".to_string(), format!("V1 file does not open: {e}"), None))?;
     if r1.file_version() != FileVersion::FormatV1 {
         return Err(("version".into(), format!("file_version() = {:?} on a V1 trailer", r1.file_version()), None));
     }
-    if r1.len() != entries.len() as u64 {
-        return Err(("len".into(), format!("len() = {} on a V1 file with {} entries", r1.len(), entries.len()), None));
+    if r1.len() != stored.count {
+        return Err(("len".into(), format!("len() = {} on a V1 file whose trailer stores {}", r1.len(), stored.count), None));
     }
-    if r1.compression_type() != codec_of(spec.cfg.codec) {
-        return Err(("codec".into(), format!("compression_type() = {:?}, stored codec id {}", r1.compression_type(), spec.cfg.codec), None));
+    if r1.compression_type() != codec_of(stored.codec) {
+        return Err(("codec".into(), format!("compression_type() = {:?}, stored codec id {}", r1.compression_type(), stored.codec), None));
     }
     let model = Model::new(entries);
     let uni = matches!(spec.entries, EntrySpec::Universe { .. });
@@ -91,6 +93,7 @@ fn check_one(spec: &FileSpec, acc: &mut Acc) {
                 acc.sample(|| json!({"file": spec, "queries": n, "entries_yielded": yielded}));
             }
         }
+        Err((kind, _, _)) if kind == "prerequisite" => acc.count("prerequisite_failed_v2_twin_not_writable_(C01)", 1),
         Err((kind, msg, q)) => {
             acc.evaluations += 1;
             acc.hist(&format!("violation_{kind}"));
